@@ -166,11 +166,25 @@ def check_case(case, acc):
         node.idx = i
     labels = forest.Labels(tree)
     _rows_once(case, acc, tree, labels, cls)
+    # one RenderTree object that is kept and used again after every mutation (it must draw the CURRENT tree)
+    style, glyphs = style_of(case["style"])
+    kept = RenderTree(tree[case["start"]], style=style, childiter=childiter_of(case["childiter"]), maxlevel=case["maxlevel"])
+    list(kept)
+    str(kept)
     # read - mutate - read again: the drawing follows the current links and names
     for op in case.get("mutations", []):
         refs.mutate_tree(tree, op)
         _rows_once(case, acc, tree, labels, cls)
+        exp = ref_rows(tree[case["start"]], childiter_of(case["childiter"]), case["maxlevel"], glyphs)
+        if [(r.pre, r.fill, id(r.node)) for r in kept] != [(e[0], e[1], id(e[2])) for e in exp]:
+            raise Violation("kept-rendertree", "a RenderTree object iterated again after the tree changed still shows the old drawing")
         acc.tag("re-rendered_after_mutation")
+    # ... and after its options were reassigned
+    if case["maxlevel"] is not None:
+        kept.maxlevel = None
+        exp = ref_rows(tree[case["start"]], childiter_of(case["childiter"]), None, glyphs)
+        if [(r.pre, r.fill, id(r.node)) for r in kept] != [(e[0], e[1], id(e[2])) for e in exp]:
+            raise Violation("kept-rendertree", "a RenderTree object ignores a reassigned maxlevel")
 
 
 def _rows_once(case, acc, tree, labels, cls):
@@ -371,7 +385,11 @@ def custom_style(draw):
     return [vertical, cont, end]
 
 
-IDENT = st.text(alphabet="abcdefgh_", min_size=1, max_size=4).filter(lambda k: k not in ("parent", "children", "name", "separator"))
+IDENT = st.one_of(
+    st.text(alphabet="abcdefgh_", min_size=1, max_size=4),
+    # names where one is a prefix of another and the longer one goes on with a digit or an underscore
+    st.sampled_from(["a", "a1", "a10", "ab", "a_", "x", "x2", "id", "id0", "width", "width2", "width_max", "B", "b"]),
+).filter(lambda k: k not in ("parent", "children", "name", "separator"))
 REPR_VALUE = st.one_of(st.integers(-3, 3), st.text(alphabet=SAFE_CHARS, max_size=4), st.none(), st.lists(st.integers(0, 2), max_size=2))
 
 
